@@ -333,6 +333,11 @@ def run(ctx: Ctx):
     cfg = cfg_text(constants={"MaxLen": t["maxlen"], "MaxRank": t["maxrank"], "DoDump": True}, invariants=IDX_INVS, constraints=["Dump"])
     r = ctx.tlc("C19_Index", cfg, dump=True)
     idx = list(read_dump(r["dump"]))
+    if t["maxlen"] < 4:
+        # index tuples of length 4 over a reduced item table (an integer / array / mask next to None, slices, Ellipsis)
+        cfg4 = cfg_text(constants={"MaxLen": 4, "MaxRank": t["maxrank"], "DoDump": True}, invariants=IDX_INVS, constraints=["Dump"]) + "\nCONSTANT Items <- ItemsSmall\n"
+        r4 = ctx.tlc("C19_Index", cfg4, name="C19_Index-len4", dump=True)
+        idx += [x for x in read_dump(r4["dump"]) if len(x["ix"]) == 4]
     cfg2 = cfg_text(constants={"Tasks": {S("tens"), S("pts"), S("transpose")}, "DoDump": True}, invariants=AR_INVS, constraints=["Dump"])
     r2 = ctx.tlc("C19_Arith", cfg2, dump=True)
     ar = list(read_dump(r2["dump"]))
